@@ -750,6 +750,90 @@ Section Proofs.
     exists a, sp, d, k. repeat split; try assumption.
     destruct (in_readable _ _ _ Hin) as [H'|[_ H']]; [exact H'|]. exfalso. exact (Hna _ H' eq_refl).
   Qed.
+
+  (* ---------------------------------------------------------------- the receiving entry point binds PRESENCE
+     (strengthening round 4).  Server.parse_authn_request / Entity.parse_logout_request hand relay_state, sigalg,
+     signature to Request._loads unchanged (Entity._parse_request), and _loads tests `relay_state is not None`:
+     rs = None (parameter absent), Some "" (present, empty) and Some r are three different things. *)
+
+  (* the Signature parameter of a signed URL is accepted only together with that URL's own message value, SigAlg
+     and RelayState - presence included: no RelayState parameter may be added to a URL signed without one (not
+     even an empty one), none may be dropped or emptied *)
+  Lemma request_binds k v r al args own certs origdoc rs sigalg :
+    hrm k K_REQ v r al true = SArgs args ->
+    (forall ca, In ca certs -> ca <> CAbsent) ->
+    loads_redirect_c cert_of verify own certs true origdoc rs sigalg (get args K_SIG) = true ->
+    origdoc = v /\ rs = rsopt r /\ sigalg = al.
+  Proof.
+    intros Hs Hna H.
+    destruct (sign_inv _ _ _ _ _ _ Hs) as [a [d [-> [Ht [_ [Hd ->]]]]]].
+    destruct (signed_gets k K_REQ v r a d Ht) as [_ [_ [_ [G4 _]]]]. cbv zeta in G4. rewrite G4 in H.
+    destruct (request_sound_c _ _ _ _ _ _ Hna H) as [a' [sp [d' [k' [-> [Esp [_ [_ Es]]]]]]]].
+    injection Esp as Esp. rewrite <- Esp in Es. apply encode_injective in Es.
+    destruct (sign_inj _ _ _ Hideal _ _ _ _ _ _ Es) as [_ [_ Eo]].
+    destruct (octets_injective _ _ _ _ _ _ _ _ Ht Ht Eo) as [_ [Ev [Er Ea]]].
+    subst. auto.
+  Qed.
+
+  Lemma rsopt_not_empty r : rsopt r <> Some "".
+  Proof. unfold rsopt. destruct (is_empty r) eqn:E; [discriminate|]. intros H. injection H as ->. discriminate. Qed.
+
+  (* ... in particular: with a signature the signer made, a present-but-empty RelayState is never accepted
+     (the signer never emits one) *)
+  Lemma empty_relay_state_refused k v r al args own certs origdoc sigalg :
+    hrm k K_REQ v r al true = SArgs args ->
+    (forall ca, In ca certs -> ca <> CAbsent) ->
+    loads_redirect_c cert_of verify own certs true origdoc (Some "") sigalg (get args K_SIG) = false.
+  Proof.
+    intros Hs Hna. destruct (loads_redirect_c _ _ _ _ _ _ _ _ _) eqn:E; [|reflexivity].
+    destruct (request_binds _ _ _ _ _ _ _ _ _ _ Hs Hna E) as [_ [Er _]].
+    exfalso. exact (rsopt_not_empty r (eq_sym Er)).
+  Qed.
+
+  Lemma readable_in own c certs : In (CCert c) certs -> In c (readable own certs).
+  Proof.
+    induction certs as [|ca l IH]; [intros []|]. cbn [readable flat_map]. rewrite in_app_iff.
+    intros [->|H]; [left; left; reflexivity|right; exact (IH H)].
+  Qed.
+
+  (* completeness at the request level: the URL as produced, handed over parameter by parameter (an absent
+     RelayState as None), is accepted as soon as the signer's certificate is published readably for the issuer -
+     whatever else is published next to it *)
+  Lemma request_complete k v r a own certs :
+    In a spec_allowed -> In (CCert (cert_of k)) certs ->
+    exists args, hrm k K_REQ v r (Some a) true = SArgs args
+      /\ get args K_RS = rsopt r
+      /\ loads_redirect_c cert_of verify own certs true v (get args K_RS) (get args K_ALG) (get args K_SIG) = true.
+  Proof.
+    intros Ha Hin. assert (Ht : dirtyp K_REQ) by (left; reflexivity).
+    destruct (sign_char k K_REQ v r a Ht Ha) as [d [Hd Hs]].
+    exists (signed_args k K_REQ v r a d). split; [exact Hs|].
+    destruct (signed_gets k K_REQ v r a d Ht) as [G1 [G2 [G3 [G4 G5]]]]. cbv zeta in *.
+    split; [exact G2|].
+    rewrite loads_c_readable. unfold loads_redirect, do_redirect_sig_check. rewrite G3, G4, G2.
+    apply existsb_exists. exists (cert_of k). split; [apply readable_in; exact Hin|].
+    match goal with |- vres_eqb ?e VTrue = true => assert (E : e = VTrue); [|rewrite E; reflexivity] end.
+    match goal with |- vrs own ?q _ = _ => assert (Hq : same_on keys5 q (signed_args k K_REQ v r a d)) end.
+    { intros x Hx. cbn in Hx.
+      destruct Hx as [<-|[<-|[<-|[<-|[<-|[]]]]]]; unfold signed_args, rsl, rsopt; destruct (is_empty r); reflexivity. }
+    apply (proj2 (honest_verifies k K_REQ v r a d own _ (cert_of k) Ht Hd Hq)). reflexivity.
+  Qed.
+
+  (* what a receiver does that tests the TRUTH of relay_state instead of `is not None` (or normalises "" to None on
+     the way to _loads) *)
+  Definition truthy (rs : option string) : option string :=
+    match rs with Some r => rsopt r | None => None end.
+
+  (* necessity of the `is not None` test: such a receiver accepts, for every message and allowed algorithm, the URL
+     that was signed WITHOUT RelayState after `RelayState=` (present, empty) was added to it *)
+  Lemma truthy_accepts_added_empty k v a own certs :
+    In a spec_allowed -> In (CCert (cert_of k)) certs ->
+    exists args, hrm k K_REQ v "" (Some a) true = SArgs args /\ get args K_RS = None
+      /\ loads_redirect_c cert_of verify own certs true v (truthy (Some "")) (get args K_ALG) (get args K_SIG) = true.
+  Proof.
+    intros Ha Hin. destruct (request_complete k v "" a own certs Ha Hin) as [args [Hs [G2 H]]].
+    exists args. split; [exact Hs|]. split; [exact G2|]. rewrite G2 in H. exact H.
+  Qed.
 End Proofs.
 
 (* ------------------------------------------------------------------ spec_b is the stated spec *)
